@@ -43,3 +43,14 @@ add("C07", "model_checking",
     "Every sparsity pattern for shapes with r*c<=12 (quick) / <=20 (thorough) in two triplet orders and pattern families up to 10x10: multiply, transpose_multiply, transpose().multiply, the adjoint identity and scale against the dense definition for every unit vector and four generic vectors, exactly; the same oracles in every state of the insert/scale/transpose BFS (storage orders from_triplets alone never produces).",
     "Trusted: dense reference product over checked i128 rationals.",
     "DESIGN.md section 6 C07")
+
+add("C08", "exploration",
+    "exhaustive enumeration of small hostile systems x every iteration budget 0..8 x every solver entry point, true residual from an independent dense copy",
+    "Every 2x2 system over 6 letters, every 3x3 system over {0,1,-1} and deviation-bounded neighbourhoods of SPD / nonsymmetric / indefinite / singular bases (thorough: every 3x3 over 4 letters, 2.5e8 solver runs), with general, zero and badly scaled right-hand sides, two guesses, three tolerances, every budget 0..8 and all five solver entry points; benign families to order 60. Whenever a solver answers Ok the true residual (double-double accumulation) must be within tol plus the measured drift allowance, k <= budget, x finite; budget 0 leaves x bit-identical. Err answers are never judged.",
+    "Trusted: dense residual computation; drift allowance uses the largest iterate obtained by re-running with budgets 1..k (solvers deterministic). Silent about systems outside the lattices and about drift inside one update.",
+    "DESIGN.md section 6 C08")
+add("C09", "exploration",
+    "exhaustive enumeration over families x orders x triplet orders x right-hand sides x guesses x tolerances x solvers, independent dense LU as reference",
+    "Six well-posed families (SPD and strictly diagonally dominant, symmetric and nonsymmetric, mixed-sign diagonals) of order 1..60 in three triplet orders with right-hand sides A x*, 0 and 1e6 A x*, guesses 0 / exact / generic and three tolerances: each applicable solver must answer Ok within 6n+30 iterations and agree with an independent dense LU solution within 10 tol ||A^-1|| ||b||; exact guesses and zero/zero starts must be accepted with x finite. Plus every strictly dominant SPD 2x2/3x3 matrix over a 5-letter alphabet for CG.",
+    "Trusted: independent dense LU and condition estimate. The Lanczos-type solvers are judged on irreducible families only: on reducible lattice members they meet exact breakdowns inherent to the methods (documented in DESIGN.md).",
+    "DESIGN.md section 6 C09")
